@@ -30,6 +30,7 @@ type sizesCase struct {
 	Codec       string
 	BodySize    int
 	HeaderBytes int
+	HeaderValue int `json:",omitempty"` // > 0: one header value of this many bytes (a single long header line)
 	N, Pos      int
 }
 
@@ -59,6 +60,9 @@ func sizesResults(c sizesCase) []vegeta.Result {
 		}
 		big.Headers = h
 	}
+	if c.HeaderValue > 0 {
+		big.Headers = http.Header{"A-First": []string{"1"}, "M-Long": []string{strings.Repeat("t", c.HeaderValue)}, "Z-Last": []string{"2", "3"}}
+	}
 	return rs
 }
 
@@ -70,6 +74,9 @@ func runSizes(c sizesCase) error {
 		return fmt.Errorf("C07: %v", err)
 	}
 	what := fmt.Sprintf("%s stream of %d records, record %d with a body of %d bytes and %d bytes of headers (%d bytes in all)", c.Codec, c.N, c.Pos%c.N, c.BodySize, c.HeaderBytes, len(data))
+	if c.HeaderValue > 0 {
+		what = fmt.Sprintf("%s stream of %d records, record %d with a header value of %d bytes between two other headers", c.Codec, c.N, c.Pos%c.N, c.HeaderValue)
+	}
 	verdicts := map[string]error{}
 	// C07
 	got, derr := vgen.DecodeAll(codec.Dec(bytes.NewReader(data)), len(rs)+1)
@@ -118,16 +125,16 @@ func runSizes(c sizesCase) error {
 	return verdicts[prop]
 }
 
-var sizesBodies = []int{65535, 65536, 65537, 1<<20 - 1, 1<<20 + 1, 1000001, 4<<20 + 1, 10000001, 16<<20 + 1}
+var sizesBodies = []int{65535, 65536, 65537, 1<<20 - 1, 1<<20 + 1, 1000001, 4<<20 + 1, 10000001, 16<<20 + 1, 32<<20 + 1, 64<<20 + 1}
 var sizesHeaders = []int{64 << 10, 1<<20 + 5000, 2 << 20}
 
 func TestSizes(t *testing.T) {
 	prop := sizesProp()
 	vh.CurT = t
 	// quick: the ladder's main rungs for every codec, spread over the shards; thorough: all rungs, plus drawn sizes
-	bodies, headers := []int{65537, 1<<20 + 1, 4<<20 + 1}, []int{1<<20 + 5000}
+	bodies, headers, headerValues := []int{65537, 1<<20 + 1, 4<<20 + 1, 16<<20 + 1}, []int{1<<20 + 5000}, []int{65536, 1<<20 + 1}
 	if vh.Thorough() {
-		bodies, headers = sizesBodies, sizesHeaders
+		bodies, headers, headerValues = sizesBodies, sizesHeaders, []int{4095, 4096, 65535, 65536, 70000, 1<<20 + 1, 4<<20 + 1}
 	}
 	var cases []sizesCase
 	for _, codec := range []string{"gob", "csv", "json"} {
@@ -136,6 +143,9 @@ func TestSizes(t *testing.T) {
 		}
 		for i, h := range headers {
 			cases = append(cases, sizesCase{Codec: codec, HeaderBytes: h, N: 3, Pos: (i + 1) % 3})
+		}
+		for i, h := range headerValues {
+			cases = append(cases, sizesCase{Codec: codec, HeaderValue: h, N: 3, Pos: i % 3})
 		}
 	}
 	for i, c := range cases {
@@ -156,8 +166,10 @@ func TestSizes(t *testing.T) {
 	}
 	vh.Check(t, 2, 6, func(t *rapid.T) {
 		c := sizesCase{Codec: rapid.SampledFrom([]string{"gob", "csv", "json"}).Draw(t, "codec"), N: rapid.IntRange(2, 4).Draw(t, "n"), Pos: rapid.IntRange(0, 3).Draw(t, "pos")}
-		if rapid.IntRange(0, 3).Draw(t, "hdr") == 0 {
+		if k := rapid.IntRange(0, 4).Draw(t, "hdr"); k == 0 {
 			c.HeaderBytes = rapid.IntRange(1<<15, 3<<20).Draw(t, "hbytes")
+		} else if k == 1 {
+			c.HeaderValue = rapid.SampledFrom([]int{1 << 12, 1 << 16, 1 << 17, 1 << 20, 1 << 21}).Draw(t, "hvbase") + rapid.IntRange(-2, 100).Draw(t, "hvdelta")
 		} else {
 			base := rapid.SampledFrom([]int{1 << 16, 1 << 17, 1 << 20, 1 << 21, 1 << 22, 1 << 23, 1000000, 5000000}).Draw(t, "base")
 			c.BodySize = base + rapid.IntRange(-2, 4096).Draw(t, "delta")
